@@ -2,7 +2,7 @@
     keys and the modelled hash / equivalence functions, and the SPEC map instantiated with key
     classes.  Keys are indices into a key vector; values are integers.  NO proofs here. *)
 From Coq Require Import List ZArith Bool Arith.
-From ChibiV Require Import Common.Words Gen.C15_Consts C15.Table C15.Obj.
+From ChibiV Require Import Common.Words Gen.C15_Consts C15.Table C15.Obj C15.Graph Gen.C15_Equiv.
 Import ListNotations.
 Local Open Scope Z_scope.
 
@@ -36,7 +36,10 @@ Definition k_hash (kind : nat) (a : obj) (n : nat) : nat :=
   | _ => Z.to_nat (fixval a mod 7 + 20)
   end.
 
-Inductive hop : Type := HSet (k : nat) (v : Z) | HDel (k : nat) | HCopy | HUpd (k : nat) (d : Z).
+(** HCopy: the current table becomes (hash-table-copy current), the previous current table is kept as `the other';
+    HKeep: the other := (hash-table-copy current), the current table stays; HSwap: exchange the two.
+    Set/Del/Upd act on the current table only; BOTH tables are observed after every operation. *)
+Inductive hop : Type := HSet (k : nat) (v : Z) | HDel (k : nat) | HCopy | HUpd (k : nat) (d : Z) | HKeep | HSwap.
 
 Definition lookup_val (c : option (nat * Z)) : option Z := option_map snd c.
 
@@ -48,12 +51,15 @@ Definition hf (i n : nat) : nat := k_hash kind (kobj i) n.
 (** the same key object (same index) is pointer-identical: every comparison path starts with eq? / a == b *)
 Definition ef (i j : nat) : bool := (i =? j)%nat || k_eq kind (kobj i) (kobj j).
 
-Definition ostep (t : @table nat Z) (o : hop) : @table nat Z :=
+Definition ostep (tt : @table nat Z * option (@table nat Z)) (o : hop) : @table nat Z * option (@table nat Z) :=
+  let '(t, u) := tt in
   match o with
-  | HSet k v => tset hf ef t k v
-  | HDel k => tdelete hf ef t k
-  | HCopy => tcopy hf ef t
-  | HUpd k d => tupdate hf ef t k Z.succ d
+  | HSet k v => (tset hf ef t k v, u)
+  | HDel k => (tdelete hf ef t k, u)
+  | HCopy => (tcopy hf ef t, Some t)
+  | HUpd k d => (tupdate hf ef t k Z.succ d, u)
+  | HKeep => (t, Some (tcopy hf ef t))
+  | HSwap => match u with Some t' => (t', Some t) | None => (t, u) end
   end.
 
 (** what is observed after each operation: size slot, number of buckets, hash-table->alist in its
@@ -61,33 +67,41 @@ Definition ostep (t : @table nat Z) (o : hop) : @table nat Z :=
 Definition odump (t : @table nat Z) : Z * nat * list (nat * Z) * list (option Z) :=
   (tsize t, length (buckets t), to_alist t, map (fun i => lookup_val (tref hf ef t i)) (seq 0 (length keys))).
 
-Fixpoint orun (t : @table nat Z) (ops : list hop) : list (Z * nat * list (nat * Z) * list (option Z)) :=
+Definition odump2 (tt : @table nat Z * option (@table nat Z)) :=
+  odump (fst tt) :: match snd tt with Some u => [odump u] | None => [] end.
+Fixpoint orun (t : @table nat Z * option (@table nat Z)) (ops : list hop) : list (list (Z * nat * list (nat * Z) * list (option Z))) :=
   match ops with
   | [] => []
-  | o :: r => let t' := ostep t o in odump t' :: orun t' r
+  | o :: r => let t' := ostep t o in odump2 t' :: orun t' r
   end.
-Definition obj_hist (ops : list hop) := orun tempty ops.
+Definition obj_hist (ops : list hop) := orun (tempty, None) ops.
 End ObjTable.
 
 Section ClassMap.
 Variable cls : list Z.         (* class id of each key of the universe under the table's equivalence *)
 Definition cf (i j : nat) : bool := nth i cls (-1) =? nth j cls (-2).
 
-Definition mstep' (m : @amap nat Z) (o : hop) : @amap nat Z :=
+(** the SPEC side: two independent association maps; a copy is the same map *)
+Definition mstep' (mm : @amap nat Z * option (@amap nat Z)) (o : hop) : @amap nat Z * option (@amap nat Z) :=
+  let '(m, u) := mm in
   match o with
-  | HSet k v => mset cf m k v
-  | HDel k => mdel cf m k
-  | HCopy => m
-  | HUpd k d => mset cf m k (Z.succ (match mref cf m k with Some (_, v) => v | None => d end))
+  | HSet k v => (mset cf m k v, u)
+  | HDel k => (mdel cf m k, u)
+  | HCopy => (m, Some m)
+  | HUpd k d => (mset cf m k (Z.succ (match mref cf m k with Some (_, v) => v | None => d end)), u)
+  | HKeep => (m, Some m)
+  | HSwap => match u with Some m' => (m', Some m) | None => (m, u) end
   end.
 Definition mdump (m : @amap nat Z) : Z * list (nat * Z) * list (option Z) :=
   (Z.of_nat (length m), m, map (fun i => lookup_val (mref cf m i)) (seq 0 (length cls))).
-Fixpoint mrun (m : @amap nat Z) (ops : list hop) : list (Z * list (nat * Z) * list (option Z)) :=
+Definition mdump2 (mm : @amap nat Z * option (@amap nat Z)) :=
+  mdump (fst mm) :: match snd mm with Some u => [mdump u] | None => [] end.
+Fixpoint mrun (m : @amap nat Z * option (@amap nat Z)) (ops : list hop) : list (list (Z * list (nat * Z) * list (option Z))) :=
   match ops with
   | [] => []
-  | o :: r => let m' := mstep' m o in mdump m' :: mrun m' r
+  | o :: r => let m' := mstep' m o in mdump2 m' :: mrun m' r
   end.
-Definition map_hist (ops : list hop) := mrun [] ops.
+Definition map_hist (ops : list hop) := mrun ([], None) ops.
 End ClassMap.
 
 (** single-object entry points for the function-level correspondence *)
@@ -96,3 +110,11 @@ Definition q_equal (a b : obj) : bool := equalb a b.
 Definition q_eqv (a b : obj) : bool := eqvb a b.
 Definition q_hash (a : obj) (bound : Z) : Z := hash_one a bound.
 Definition q_string_hash (a : obj) (bound : Z) : Z := string_hash a bound.
+
+(** data with sharing / cycles: a graph whose leaves are atoms of Obj.v compared by the model of the core equal?.
+    q_geq = (the regenerated equiv? of lib/chibi/equiv.scm, the SPEC decision bisim_dec);
+    q_gtop = the whole (scheme base) equal? given the answer of the bounded C pass *)
+Definition q_geq (g : list (node obj)) (a b : nat) : option bool * bool :=
+  (fst (equiv equalb g (equiv_fuel g) a b []), bisim_dec equalb g a b).
+Definition q_gmodel (g : list (node obj)) (a b : nat) : option bool := fst (equiv equalb g (equiv_fuel g) a b []).
+Definition q_gtop (g : list (node obj)) (res : option Z) (a b : nat) : option bool := equal_top equalb g res a b.
